@@ -1699,6 +1699,15 @@ impl Matcher {
             }
         }
 
+        #[cfg(corro_verif)]
+        {
+            let d = crate::updates::verif_hooks::COMMIT_DELAY_MS
+                .load(std::sync::atomic::Ordering::SeqCst);
+            if d > 0 {
+                std::thread::sleep(Duration::from_millis(d));
+            }
+        }
+
         tx.commit()?;
 
         trace!("committed!");
